@@ -4,9 +4,9 @@ import numpy as np
 from pmc.refs import netad
 
 PROPERTY = 'C02'
-RULE = ("program enumeration: every type-correct sequence of k modules from a typed alphabet of 14 module kinds "
+RULE = ("program enumeration: every type-correct sequence of k modules from a typed alphabet of 16 module kinds "
         "(user-defined Sq, Lin, Mul, Fan(two outputs), SMul, slice-consuming SlIn, slice-writing SlOut, and library "
-        "EinSum('i,i->'), ConcatSignal, MakeComplex, ComplexNorm), every wiring to any earlier signal (fan-out, diamonds, "
+        "EinSum('i,i->'), ConcatSignal, MakeComplex, ComplexNorm, RealPart, ImagPart), every wiring to any earlier signal (fan-out, diamonds, "
         "the same signal twice), every contiguous grouping into a nested Network, every seed subset of size <= 2 over all "
         "produced signals (sinks and intermediates); schedule response/seed/sensitivity, reset, and the same again. "
         "A case is one program; non-trivial = at least one signal is consumed twice or a slice/nested network is involved; "
@@ -115,6 +115,10 @@ def build(prog, a0, b0):
             m = pym.MakeComplex(si, outs)
         elif name == 'CNorm':
             m = pym.ComplexNorm(si, outs)
+        elif name == 'Re':
+            m = pym.RealPart(si, outs)
+        elif name == 'Im':
+            m = pym.ImagPart(si, outs)
         else:
             raise KeyError(name)
         mods.append(m)
@@ -211,7 +215,7 @@ def structure(prog):
     fanout = len(used) != len(set(used))
     names = {n for n, _ in prog}
     return {'double_use': twice_by_one, 'fanout': fanout, 'slices': bool(names & {'SlIn', 'SlOut'}),
-            'complex': bool(names & {'MkC', 'CNorm'})}
+            'complex': bool(names & {'MkC', 'CNorm', 'Re', 'Im'})}
 
 
 def execute(case):
@@ -283,6 +287,10 @@ def generate(tier, seed):
     for k in (1, 2):
         yield {'__level__': f'k{k}/full'}
         for prog in netad.programs(k, full, SRC_TYPES):
+            yield {'prog': prog, 'table': t}
+    yield {'__level__': 'k3/complex-sub-alphabet'}
+    for prog in netad.programs(3, netad.COMPLEX_SUB, SRC_TYPES):
+        if any(n == 'MkC' for n, _ in prog):
             yield {'prog': prog, 'table': t}
     if tier == 'quick':
         yield {'__level__': 'k3/user-defined'}
